@@ -81,6 +81,11 @@ class Check(object):
 
     # --- finish -------------------------------------------------------------
     def finish(self):
+        # the implementation under test must have been the overlay built from the repository, never the wheel in /venv: if the build directory
+        # disappeared while the check ran (another process pruned it) the children imported something else and nothing observed can be trusted
+        pkg = os.environ.get("VERIF_PKG")
+        if pkg and not os.path.exists(os.path.join(pkg, "cvxopt", "__init__.py")):
+            self.machinery_errors.append("the overlay build %s vanished while the check was running" % pkg)
         if self.replay_sig:
             for m in self.machinery_errors:
                 sys.stderr.write("MACHINERY ERROR: " + m + "\n")
